@@ -53,6 +53,22 @@ impl Timer {
     ///
     /// The result is cached.
     pub fn precision(self) -> FineDuration {
+        // Under a virtual clock the precision is scripted or re-measured per
+        // scenario; the process-wide cache must not be used.
+        #[cfg(feature = "divan_verif")]
+        if crate::verif::clock::installed() {
+            crate::verif::event(crate::verif::Ev::new("precision_begin"));
+            let precision = match crate::verif::clock::precision_override() {
+                Some(picos) => FineDuration { picos },
+                None => self.measure_precision(),
+            };
+            crate::verif::event(
+                crate::verif::Ev::new("precision_end")
+                    .u("picos", precision.picos),
+            );
+            return precision;
+        }
+
         static CACHED: [OnceLock<FineDuration>; Timer::COUNT] =
             [OnceLock::new(), OnceLock::new()];
 
@@ -140,6 +156,19 @@ impl Timer {
     ///
     /// `min_time` and `max_time` do not consider this as benchmarking time.
     pub fn bench_overheads(self) -> &'static TimedOverhead {
+        // Under a virtual clock the overheads are scripted per scenario.
+        #[cfg(feature = "divan_verif")]
+        if let Some([sample_loop, tally_alloc, tally_dealloc, tally_realloc]) =
+            crate::verif::clock::overheads()
+        {
+            return Box::leak(Box::new(TimedOverhead {
+                sample_loop: FineDuration { picos: sample_loop },
+                tally_alloc: FineDuration { picos: tally_alloc },
+                tally_dealloc: FineDuration { picos: tally_dealloc },
+                tally_realloc: FineDuration { picos: tally_realloc },
+            }));
+        }
+
         // Miri is slow, so don't waste time on this.
         if cfg!(miri) {
             return &TimedOverhead::ZERO;
